@@ -136,6 +136,23 @@ func (g *vfGen) genC17() {
 	// from one check to another as the header grows (ttf -> x-msaccess is the documented case), and between the
 	// point where the first one lets go and the point where the second one takes hold there must be no gap
 	maxL := g.pick(24, 48)
+	// length fields that point beyond the header: Chrome extensions (Cr24, version, public key length, signature length,
+	// then the zip), with the zip where the header says, somewhere else, or missing
+	for _, pk := range []int{40, 3000, 4000, 70000} {
+		for _, tail := range [][]byte{[]byte("PK\x03\x04rest of the archive"), []byte("not a zip at all, just text"), {}} {
+			for _, ver := range []byte{2, 3} {
+				h := []byte{'C', 'r', '2', '4', ver, 0, 0, 0, byte(pk), byte(pk >> 8), byte(pk >> 16), 0, 100, 0, 0, 0}
+				data := append(append(append([]byte{}, h...), g.bytes(pk+100)...), tail...)
+				for _, l1 := range []int{16, 64, 3072, pk + 116, pk + 118} {
+					for _, l2 := range []int{0, l1 + 1, pk + 120, len(data), len(data) + 1} {
+						if l1 > 0 && (l2 == 0 || l2 > l1) {
+							g.emit(vfOp("mono", data, l1, l2))
+						}
+					}
+				}
+			}
+		}
+	}
 	// the formats tree.go documents as sharing their first bytes with another one
 	heads = append(heads,
 		append([]byte("\x00\x01\x00\x00Standard Jet DB\x00"), make([]byte, 40)...),
